@@ -88,6 +88,9 @@ func c27Gen(runSeed uint64, tier string) *gen.Scenario {
 		c["nbf"] = gen.Pick(g, []string{"missing", "missing", "missing", "past", "future"})
 		// when the token is presented relative to its issue: seconds after minting
 		c["use_after_s"] = float64(gen.Pick(g, []int{0, 1, 30, 299, 300, 301, 3600}))
+		// a token that was accepted is presented again this much later (-1 = not): acceptance is a
+		// function of the token and the instant, not of what the authenticator has seen before
+		c["again_after_s"] = float64(gen.Pick(g, []int{-1, -1, -1, 0, 1, 120, 298, 301, 400}))
 		sc.Requests = append(sc.Requests, r)
 	}
 	return sc
@@ -342,6 +345,19 @@ func c27Exec(t *testing.T, sc *gen.Scenario, trace bool) *harness.Outcome {
 			case err == nil && claims.ClientID != "client-1":
 				violate("wrong_client_id", "method=oidc", "request %d: client id %q extracted, the token says client-1", i, claims.ClientID)
 				return
+			}
+			if again, _ := rq.Ctx["again_after_s"].(float64); again >= 0 && err == nil && want && (rq.Ctx["exp"] == "future" || rq.Ctx["exp"] == "far_future") && rq.Ctx["iat"] != "at_use" {
+				// the same token, the same authenticator, a later instant: every claim but exp stays as valid
+				// as it was
+				time.Sleep(time.Duration(again) * time.Second)
+				want2 := rq.Ctx["exp"] == "far_future" || time.Now().Before(time.Unix(now.Add(300*time.Second).Unix(), 0))
+				_, err2 := auth.Authenticate(metadata.NewIncomingContext(context.Background(), metadata.Pairs("authorization", "Bearer "+tok)))
+				out.Evals++
+				run.Log("oidc", fmt.Sprintf("r%d again want=%v got=%v", i, want2, err2 == nil))
+				if (err2 == nil) != want2 {
+					violate(map[bool]string{true: "invalid_token_accepted", false: "valid_token_rejected"}[err2 == nil], "method=oidc reason=presented_again", "request %d: the token accepted %vs after minting was presented again %vs later: authenticated=%v, expected %v: %s", i, rq.Ctx["use_after_s"], again, err2 == nil, want2, desc)
+					return
+				}
 			}
 			if want {
 				simrt.Probe("tokens_accepted")
